@@ -280,3 +280,10 @@ Qed.
 (* a group without any data variable is a key of the dictionary like every other group *)
 Theorem every_group_is_a_key t p ds : In (p, ds) (flat t) -> In (render p, ds) (flatten_keys t).
 Proof. intros H. unfold flatten_keys. apply in_map_iff. exists (p, ds). split; [reflexivity | exact H]. Qed.
+
+Theorem every_group_is_an_escaped_key a b t p ds :
+  In (p, ds) (flat t) -> In (replace_char a b (render p), ds) (tree_to_dict a b t).
+Proof.
+  intros H. unfold tree_to_dict, map_keys. apply in_map_iff.
+  exists (render p, ds). split; [reflexivity | apply every_group_is_a_key; exact H].
+Qed.
